@@ -88,6 +88,40 @@ CONFIG = {
         "sort_tags": ("uci",), "ignore_ops": NODE_IGNORE, "spec_tags": ("uci",), "sample_tags": ("uci",),
         "rule": "coordinate text of every legal move and the move reconstructed from it by the Stockfish-bridge reader (hook), compared with the model and with the standard form",
     },
+    "C07": {
+        "ignore_ops": ("pos", "sctx", "apply", "toggle", "undo"), "spec_tags": ("search", "snap"), "sample_tags": ("search",),
+        "search_mode": "legal",
+        "rule": "alpha_beta_search at depths 0..3 in rayon pools of 1..64 threads on corpus positions (mated, stalemated, single-reply, in-check ones included) and on "
+                "positions met along random walks, under catch_unwind: the answer must be a member of the rules' legal-move set (or NoAvailableMoves / DepthTooLow exactly "
+                "when the rules say so) and the full board snapshot (64 squares, clocks, key, stacks, 15 bitboards) must be identical before and after; distinct = distinct (position, depth, answer)",
+    },
+    "C08": {
+        "ignore_ops": ("pos", "sctx", "apply", "toggle", "undo"), "spec_tags": ("search",), "sample_tags": ("search",),
+        "search_mode": "exact",
+        "rule": "(last_score, move) of alpha_beta_search vs a pruning-free, cache-free minimax computed by the extracted model (score equal; the move must be one whose own "
+                "minimax value equals it), depths 1..3, fresh contexts and one context reused along the successive searches of a game",
+    },
+    "C10": {
+        "ignore_ops": ("pos",), "spec_tags": ("perft", "snap"), "sample_tags": ("perft",),
+        "rule": "MoveGenerator::count_positions(depth) for depths 0..N in rayon pools of 1, 2, 4, 16 threads, with a cache-cleared and with a long-lived generator, vs the cumulative "
+                "perft of the rules spec (sum over k = 1..depth+1 of the number of legal move sequences of length k)",
+    },
+    "C14": {
+        "ignore_ops": ("pos", "game", "gtoggle"), "spec_tags": ("gcoord", "galg", "glabels", "gsnap"), "sample_tags": ("gcoord", "galg"),
+        "rule": "games played through the Game API: at every node several rejected inputs (mutated labels, labels of the previous position, illegal coordinate pairs; periodically all 4096 pairs) "
+                "must leave the game snapshot (board, clocks, key, history) unchanged, and one accepted input (by label or by coordinates) must play exactly the named move and append it to the history; "
+                "every answer is compared with the model's apply_by_coords / apply_by_notation",
+    },
+    "C15": {
+        "ignore_ops": ("pos", "game", "gnew", "gtoggle", "gsync"), "spec_tags": ("book", "gselect", "gengine", "gcoord"), "sample_tags": ("book", "gselect", "gengine"),
+        "rule": "every node of the compiled opening-book trie (all prefixes of all lines) is compared with the continuations of the translated book source; the engine is asked for its move at every node "
+                "of every line, past the end of lines, and in supplied starting positions: the answer must be a legal move of the rules whenever one exists",
+    },
+    "C17": {
+        "ignore_ops": ("pos", "apply", "toggle", "undo"), "spec_tags": ("count",), "sample_tags": ("count",),
+        "rule": "shuffling games (knight/king/rook dances, triangulations, loss of rights, en-passant opportunities, interleaved undo) in which every position is registered as it arises: the returned count is compared with a "
+                "reference multiset of (placement, side to move, rights, ep target) kept by the harness, and with the model's count; the third occurrence must be reported as a draw",
+    },
 }
 
 ALLC = "corpus=/verif/corpus/positions.txt"
@@ -160,5 +194,32 @@ def scenarios(pid, tier, seed):
         return [
             {"args": ["scen", "family=tree", "depth=2", "budget=%d" % (120 if q else 4000), "ops=uci", "sync=1", S], "shards": 16},
             {"args": ["scen", "family=setups", "count=%d" % (500 if q else 20000), "depth=1", "budget=6", "ops=uci", "sync=1", S], "shards": 16},
+        ]
+    if pid == "C07":
+        return [
+            {"args": ["scen", "family=searches", "depths=0,1,2", "pools=%s" % ("1,4,16" if q else "1,2,4,16,64"), "walkpos=%d" % (4 if q else 400), S], "shards": 16},
+        ] + ([] if q else [
+            {"args": ["scen", "family=searches", "depths=3", "pools=1,4,16,64", "maxpieces=12", "walkpos=200", S], "shards": 16},
+        ])
+    if pid == "C08":
+        return [
+            {"args": ["scen", "family=searches", "depths=1,2", "pools=1,4,16", "walkpos=%d" % (24 if q else 400), "game=%d" % (4 if q else 12), S], "shards": 16},
+            {"args": ["scen", "family=searches", "depths=3", "pools=1,4,16", "maxpieces=%d" % (10 if q else 16), "walkpos=%d" % (16 if q else 300), "game=%d" % (3 if q else 10), S], "shards": 16},
+        ]
+    if pid == "C10":
+        return [
+            {"args": ["scen", "family=perfts", "depth=%d" % (2 if q else 3), "walkpos=%d" % (16 if q else 200), S], "shards": 16},
+        ]
+    if pid == "C14":
+        return [
+            {"args": ["scen", "family=games", "len=%d" % (14 if q else 60), "allpairs=%d" % (9 if q else 5), "walkpos=%d" % (8 if q else 120), S], "shards": 16},
+        ]
+    if pid == "C15":
+        return [
+            {"args": ["scen", "family=engine", "sdepth=1", "reps=%d" % (1 if q else 4), "walkpos=%d" % (16 if q else 300), S], "shards": 16},
+        ]
+    if pid == "C17":
+        return [
+            {"args": ["scen", "family=repetition", "count=%d" % (64 if q else 1200), "len=%d" % (60 if q else 160), "undo=12", S], "shards": 16},
         ]
     raise KeyError(pid)
